@@ -1,5 +1,6 @@
-(* Eval11.v — evaluation of C11 observations (stub: replaced when C11 is built). *)
-From Verif Require Import Base Sexp.
+(* Eval11.v — evaluation of C11 observations: package-level runs of SetFuncName over the
+   typesMaps of several plugins, in-process (pkg) or through the goderive binary (e2e). *)
+From Verif Require Import Base Sexp Gen.TypesMap Gen.TmEval.
 Open Scope string_scope.
 
-Definition eval11 (e : sexp) : verdict := bad_line.
+Definition eval11 (e : sexp) : verdict := eval_pkg e.
